@@ -326,11 +326,17 @@ def run_ffdir(chk, ask, Gen, inject, FAULTS, dump_ff, load_ff, repr_j, pending):
             listings.append(tl)
         for ci, ((top, pre, fault), tl, ln, mo) in enumerate(zip(fcases, listings, reqs, ask(reqs))):
             given = {}
+            pre_error = None
             for name, text in pre:
                 given[name] = ForceField(name=name)
-                read_ff(text, given[name])
+                try:
+                    read_ff(text, given[name])
+                except Exception as e:   # a well-formed generated file that the real reader refuses
+                    pre_error = '%s: %s' % (type(e).__name__, str(e)[:160])
             before = {k: len(v.links) for k, v in given.items()}
             try:
+                if pre_error is not None:
+                    raise IOError(pre_error)
                 out = find_force_fields(top, dict(given)) if pre else find_force_fields(top)
                 im = enc([[k, [dump_ff(v), [[a, repr_j(b)] for a, b in v.variables.items()]]] for k, v in out.items()])
             except Exception as e:
@@ -338,7 +344,7 @@ def run_ffdir(chk, ask, Gen, inject, FAULTS, dump_ff, load_ff, repr_j, pending):
             errs = []
             if out is None:
                 if fault is None:
-                    errs.append('well-formed force field library rejected')
+                    errs.append('well-formed force field library rejected' + (' (pre-loaded file: %s)' % pre_error if pre_error else ''))
             else:
                 if fault is not None:
                     errs.append('a library with a malformed file was loaded')
